@@ -161,13 +161,14 @@ pub fn overlap_strategy() -> proptest::strategy::BoxedStrategy<Scenario> {
         1u8..=2,
         prop_oneof![Just(PayOutcome::Error(210)), Just(PayOutcome::Error(205)), Just(PayOutcome::Garbled)],
         0u8..3,
-        (4u16..10, 5u16..36),
+        (4u16..10, 5u16..36, 0u8..3, any::<bool>()),
         proptest::collection::vec(step_strategy(&d), 0..12),
         any::<u64>(),
         any::<bool>(),
         proptest::sample::select(&[10u64, 60, 120][..]),
     )
-        .prop_map(|(recipient_ok, drain_parts, outcome, failed_parts, hold, tail, seed, amountless, mpp)| {
+        .prop_map(|(recipient_ok, drain_parts, outcome, failed_parts, (hk, hm, pending_parts, long_tick), tail, seed, amountless, mpp)| {
+            let hold = (hk, hm);
             let cfg = Cfg { mpp_timeout_s: mpp, ..Cfg::default() };
             let pay = PaymentSpec { preimage: 0x11, invoice_amount: if amountless { None } else { Some(1_000_000) }, tlv_amount: 1_000_000, hints: Hints::None, explicit_payee: false, recipient_ok, drain_parts };
             let need = needed_total(&cfg, 1_000_000);
@@ -177,7 +178,17 @@ pub fn overlap_strategy() -> proptest::strategy::BoxedStrategy<Scenario> {
                 steps.push(Step::PayPart(0));
                 steps.push(Step::Part(0, PartOutcome::Fail(203)));
             }
+            // parts still in flight when the pay command gives up
+            for _ in 0..pending_parts {
+                steps.push(Step::PayPart(0));
+            }
             steps.push(Step::PayFinish(0, outcome));
+            if long_tick {
+                // long enough for a waitsendpay that was given a timeout to run into it
+                steps.push(Step::Flush);
+                steps.push(Step::Tick(13));
+                steps.push(Step::Flush);
+            }
             steps.extend(tail);
             let mut scn = crate::props::c13::blank(vec![pay], vec![h(0), h(1), h(2)], seed);
             scn.cfg = cfg;
